@@ -321,8 +321,8 @@ func c01Check(r *core.Run, st *c01stats, sigs *sync.Map, nsigs *int64, fam c01Fa
 					discr = "markup-inside-doctype" // the engine treats DOCTYPE contents as text (strips "comments" there)
 				}
 			}
-			unesc := strings.ReplaceAll(outI, "&lt;", "<")
-			if tmplx.SigOf(tmplx.Tokenize(unesc, false), false) == sigA || unesc == auth || unesc == c01StripRealComments(tokA) {
+			unesc := string(htmltok.Preprocess([]byte(strings.ReplaceAll(outI, "&lt;", "<"))))
+			if tmplx.SigOf(tmplx.Tokenize(unesc, false), false) == sigA || unesc == string(htmltok.Preprocess([]byte(auth))) || unesc == c01StripRealComments(tokA) {
 				discr = "stray-lt-escaped" // the engine's rewrite of a stray '<' to &lt; (plus comment stripping) is the whole difference
 			}
 			r.Witness("author-structure", discr, n.Raw, fmt.Sprintf("program %s: output %s has structure %s, the author's markup %s has %s", core.Q(n.Raw), core.Q(outI), sigI, core.Q(auth), sigA), mk(-1, "", "", "author-structure"))
